@@ -418,6 +418,12 @@ class BuiltinsMixin(AccessMixin):
                 raise PyRaise(Instance(self.bclasses["ValueError"], ("invalid literal for int()",)), node, frame.where(node))
         if isinstance(v, SymAny):
             return self.any_as_int(v)
+        if isinstance(v, SymFloat):
+            return v.floor
+        if isinstance(v, float):
+            return int(v)
+        if isinstance(v, Unknown):
+            return Unknown("int() of %s" % v.reason)
         return Unknown("int() of %s" % self.kind_of(v))
 
     def bi_str(self, args, kwargs, node, frame):
@@ -543,6 +549,9 @@ class BuiltinsMixin(AccessMixin):
                         src = a[0]
                         if isinstance(src, dict):
                             obj.update(src)
+                            for kk, vv in src.items():
+                                if isinstance(vv, View) and isinstance(kk, str):
+                                    I.event("view-stored", key=kk, view=vv, where=where, node=n)
                         elif isinstance(src, SymDict):
                             obj["**"] = src
                         else:
@@ -553,6 +562,9 @@ class BuiltinsMixin(AccessMixin):
                                 for it in items:
                                     obj[it[0]] = it[1]
                     obj.update(k)
+                    for kk, vv in k.items():
+                        if isinstance(vv, View):
+                            I.event("view-stored", key=kk, view=vv, where=where, node=n)
                     return None
                 return I.mk("dict.update", update)
             if name == "copy":
@@ -702,8 +714,7 @@ class BuiltinsMixin(AccessMixin):
                 return I.mk("keyset.issubset", issub)
             return None
         if isinstance(obj, str):
-            if name in ("startswith", "endswith", "rstrip", "lstrip", "strip", "split", "upper", "lower",
-                        "encode", "join", "format", "replace", "find", "zfill", "isdigit", "rjust", "ljust"):
+            if not name.startswith("__") and callable(getattr(str, name, None)):
                 def smeth(a, k, n, f):
                     if all(I.is_static(x) for x in a) and all(I.is_static(x) for x in k.values()):
                         try:
